@@ -67,7 +67,12 @@ fn main() {
             cleanup_scratch();
             code
         }
-        Some("worker") => worker(&args[1..]),
+        Some("worker") => {
+            let code = worker(&args[1..]);
+            // a worker's own scratch root is empty by now: do not leave the directory behind
+            let _ = std::fs::remove_dir(simcore::scratch_root());
+            code
+        }
         _ => {
             eprintln!("usage: verif check <Cxx> --tier quick|thorough | replay <file> | selftest-determinism");
             2
